@@ -31,7 +31,42 @@ _RN_GRID = {"self._size": "n", "num_[::2]": "lo", "num_[1::2]": "hi"}
 _RN_ROI_G = {"start[i]": "start", "size[i]": "size", "grid_size[i]": "m"}
 _RN_ROI_T = {"start[i]": "start", "size[i]": "size", "data.shape[data.ndim - 1 - i]": "m"}
 
+_RN_TF = {"self.size_tensor()": "size"}
+
+
+def _tf(name, occ, params, **kw):
+    return (Frag(name, _GRID, "Grid.transform", "assign", {k: "real" for k in params}, occ=(occ, occ), rename=_RN_TF, **kw), "real")
+
+
+def _co(name, target, occ, params, elt=None):
+    return (Frag(name, _GRID, "Grid.coords", "assign", {k: "real" for k in params}, target=target, occ=(occ, occ), elt=elt), "real")
+
+
 REGISTRY: Dict[str, List[Tuple[Frag, str]]] = {
+    "C01": [
+        # Grid.transform, same-grid branch table: diagonal scale and offset of every axes pair that has a closed form
+        _tf("tf_grid_cube_scale", 0, ["size"], target="matrix", arg_of="torch.diag"),
+        _tf("tf_grid_corners_scale", 1, ["size"], target="matrix", arg_of="torch.diag"),
+        _tf("tf_cube_corners_scale", 2, ["size"], target="matrix", arg_of="torch.diag"),
+        _tf("tf_cube_grid_scale", 3, ["half_size"], target="matrix", arg_of="torch.diag"),
+        _tf("tf_corners_cube_scale", 4, ["size"], target="matrix", arg_of="torch.diag"),
+        _tf("tf_corners_grid_scale", 5, ["scales"], target="matrix", arg_of="torch.diag"),
+        _tf("tf_grid_cube_offset", 1, ["size", "one"], target="matrix", arg_of="homogeneous_matrix", kwarg="offset"),
+        _tf("tf_grid_corners_offset", 2, ["offset"], target="matrix", arg_of="homogeneous_matrix", kwarg="offset"),
+        _tf("tf_cube_grid_offset", 4, ["half_size"], target="matrix", arg_of="homogeneous_matrix", kwarg="offset"),
+        _tf("tf_corners_grid_offset", 5, ["scales"], target="matrix", arg_of="homogeneous_matrix", kwarg="offset"),
+        _tf("tf_half_size", 0, ["size"], target="half_size"),
+        _tf("tf_scales", 0, ["size"], target="scales"),
+        _tf("tf_one", 0, [], target="one"),
+        _tf("tf_minus_one", 1, [], target="offset"),
+        # Grid.coords(normalize=True): arange(first, last, step) per axis
+        _co("co_ac_step", "spacing", 0, ["n"]),
+        _co("co_ac_first", "extrema", 0, [], elt=0),
+        _co("co_ac_last", "extrema", 0, ["spacing"], elt=1),
+        _co("co_step", "spacing", 1, ["n"]),
+        _co("co_first", "extrema", 1, ["spacing"], elt=0),
+        _co("co_last", "extrema", 1, [], elt=1),
+    ],
     "C04": [
         # grid side (core/grid.py)
         (Frag("grid_crop_size", _GRID, "Grid.crop", "assign", {"n": "int", "lo": "int", "hi": "int"}, target="size", occ=(0, 0), rename=_RN_GRID), "int"),
@@ -123,6 +158,24 @@ def check(prop: str) -> Dict[str, object]:
         detail[n] = {"ok": not bad, "axioms": axs}
         if bad:
             detail[n]["error"] = "does not check against the current source (" + ", ".join(bad) + ")"
+    # `#print axioms` alone is not enough: a theorem whose STATEMENT fails to elaborate is still added (with a `sorry`
+    # type) and reports no axioms. Every error message is therefore attributed to the theorem whose text contains its line
+    # (an error elsewhere, e.g. inside the generated definitions, breaks every obligation), and a non-zero exit status
+    # without an attributable error breaks all of them.
+    lines = body.splitlines()
+    starts = [(i + 1, m.group(1)) for i, l in enumerate(lines) for m in [re.match(r"\s*theorem\s+([A-Za-z_][A-Za-z0-9_']*)", l)] if m]
+    err_lines = [int(m.group(1)) for m in re.finditer(r"Gen" + re.escape(prop) + r"\.lean:(\d+):\d+: error", out)]
+    hit_all = p.returncode != 0 and not err_lines
+    for ln in err_lines:
+        owner = [nm for (st, nm) in starts if st <= ln]
+        if owner and owner[-1] in detail:
+            detail[owner[-1]] = {"ok": False, "error": f"elaboration error at line {ln}"}
+        elif not owner or owner[-1] not in names:
+            if not owner:
+                hit_all = True
+    if hit_all:
+        for n in names:
+            detail[n] = {"ok": False, "error": "the generated file does not elaborate"}
     broken = [n for n in names if not detail[n]["ok"]]
     errs = [l for l in out.splitlines() if ": error" in l][:12]
     return {"names": names, "broken": broken, "detail": detail, "skipped": skipped, "fragments": done,
